@@ -4,7 +4,7 @@ import os, re, shutil, subprocess
 from . import common as C, l3, l4
 
 SIZES = [0, 1, 7, 4095, 4096, 4097, 12288, 12289, 50000]
-MTIMES = [0, 1, 999_999_999, 1_000_000_000, 1_600_000_000_123_456_789, 1_700_000_000_000_000_001, 2 ** 33 * 10 ** 9 + 5, 4_000_000_000_987_654_321]
+MTIMES = [0, 1, 999_999_999, 1_000_000_000, 9_223_372_036_854_775_807, 9_223_372_036_854_775_808, 10_000_000_000_000_000_123, 14_999_999_999_999_999_999, 1_600_000_000_123_456_789, 1_700_000_000_000_000_001, 2 ** 33 * 10 ** 9 + 5, 4_000_000_000_987_654_321]
 NAMES = ['a', 'b', 'c', 'd.txt', 'e', 'é', 'sp ace', 'L1', 'L2', 'keep.tmp', 'new\nline.txt', 'x\ny']
 FILTER_SETS = [[], [], [], ['-.*\\.txt'], ['-.*\\.txt'], ['-.*y'], ['-b'], ['+a(/.*)?', '+c(/.*)?'], ['-.*/c'], ['+.*', '-.*\\.tmp'], ['-é', '-sp ace'], ['-a/.*'], ['-a', '+a/b']]
 
@@ -78,7 +78,14 @@ def mutate(rng, base, src_ents, decoys=True):
         if any(p.startswith(d + '/') for d in dropped):
             continue
         r = rng.random()
-        if r < 0.35:
+        if e[1] == 'L' and r < 0.3:
+            # a destination link whose text is *nearly* the source's: other slash kind (must be re-created), redundant separators
+            # (same target: must be left alone), a dot component, other case
+            t = e[2] if isinstance(e[2], bytes) else e[2].encode()
+            near = [t.replace(b'/', b'\\'), t.replace(b'\\', b'/'), t.replace(b'/', b'//'), t + b'/', b'./' + t, t.replace(b'/', b'/./'), t.swapcase(), t.rstrip(b'/')]
+            near = [x for x in near if x and x != t and b'\x00' not in x]
+            out.append((p, 'L', rng.choice(near) if near else t))
+        elif r < 0.35:
             out.append(e)                                     # same (files: same mtime => up to date)
         elif r < 0.5:
             dropped.append(p)                                 # missing on the destination
